@@ -56,5 +56,6 @@ Definition run (t : Tree) : Tree :=
   | 11%Z => let '(o, s, m) := df_dense rt in L [eLZ o; eLZ s; eLLZ m]
   | 12%Z => L (map (fun row => L (map (eOpt I) row)) (df_sparse rt))
   | 13%Z => eResult eMdDf (r_md_df (tAxis (tnth t 2)) rt)
+  | 15%Z => eLLZ (r_vectors (tAxis (tnth t 2)) rt)
   | _ => eN (r_nnz rt)
   end.
